@@ -646,6 +646,11 @@ def _as_int(i):
         raise InterpIndexError('only integers, slices (`:`), ellipsis (`...`) are valid indices (got float-like %s)' % i)
     if isinstance(i, Arr) and i.size == 1:
         return _as_int(i.item())
+    tags = getattr(i, 'tags', None)
+    if tags:
+        # an index computed from data: the run cannot go on, but what the index depends on is known
+        from .dv import DataDependentInt
+        raise DataDependentInt(tags, 'array index computed from data (%s)' % type(i).__name__)
     raise AnalysisError('non concrete array index %r' % (i,))
 
 
